@@ -4,7 +4,7 @@ CFG = {'level': 'exploration',
  'design_ref': '5.15 C15',
  'technique': 'runtime monitoring: edit sessions on the real modfile.File / WorkFile; oracle = multiset equality of the exported struct fields with a '
               'strict re-parse of the formatted file, no cleared placeholder entries, Add*(x);Drop*(x) probes',
- 'level_text': 'About 5.6e4 (quick) / 3e6 (thorough) sessions of 1..12 edit operations (go.mod and go.work, valid arguments from a small colliding '
+ 'level_text': 'About 1.7e5 (quick) / 3e6 (thorough) sessions of 1..12 edit operations (go.mod and go.work, valid arguments from a small colliding '
                'universe, Cleanup before bulk sets and at the end) on generated starting files with duplicates, mixed forms and tagged comments; a '
                'third of the sessions end in an Add*(x);Drop*(x) probe. After each session module, go, toolchain, godebug, require+indirect, '
                'exclude, replace old/new, retract interval+rationale, tool and use path of the struct must equal, as multisets, what a strict parse '
